@@ -159,6 +159,45 @@ def _run(cmd, cwd=None, timeout=1800, env=None):
         return 124, (e.stdout or b"").decode() if isinstance(e.stdout, bytes) else (e.stdout or ""), "TIMEOUT", time.time() - t0
 
 
+def _invalidate_dependents(removed):
+    """A generated fragment that could not be produced is gone; coqdep then no longer lists it as a dependency, and make
+    would keep the STALE .vo of every file that requires it (and extraction / props files would load them).  Remove the
+    compiled forms of every file that (transitively) Requires a removed module, so that make rebuilds and fails them."""
+    reqs = {}
+    for sub in ("lib", "gen", "model", "proofs", "props"):
+        d = os.path.join(COQ, sub)
+        if not os.path.isdir(d):
+            continue
+        for fn in os.listdir(d):
+            if fn.endswith(".v") and not fn.startswith("."):
+                try:
+                    txt = open(os.path.join(d, fn), errors="replace").read()
+                except OSError:
+                    continue
+                reqs[sub + "/" + fn] = " ".join(re.findall(r"Require\b.*?\.(?=\s)", txt, re.S))
+    dead = set(removed)
+    changed = True
+    while changed:
+        changed = False
+        for vf, req in reqs.items():
+            if vf in dead:
+                continue
+            for d in list(dead):
+                mod = os.path.basename(d)[:-2]
+                if re.search(r"(?<![A-Za-z0-9_])%s(?![A-Za-z0-9_'])" % re.escape(mod), req):
+                    dead.add(vf)
+                    changed = True
+                    break
+    out = dead - set(removed)
+    for vf in out:
+        for suffix in ("o", "ok", "os"):
+            try:
+                os.remove(os.path.join(COQ, vf + suffix))
+            except OSError:
+                pass
+    return out
+
+
 def coq_build(generators=(), timeout=3000):
     """Regenerate fragments, (re)build every .vo with a full make, rebuild the extraction driver.
     Serialised across concurrent checks with a lock.  Returns dict(ok, failed_files, log, wall_s)."""
@@ -181,6 +220,9 @@ def coq_build(generators=(), timeout=3000):
                             os.remove(os.path.join(COQ, o + suffix))
                         except OSError:
                             pass
+        gone = [o for ge in res["gen_errors"] for o in ge["outputs"]]
+        if gone:
+            res["invalidated"] = sorted(_invalidate_dependents(gone))
         rc, out, err, _ = _run([sys.executable, os.path.join(VERIF, "tools", "mkproject.py")])
         if rc != 0:
             res["ok"] = False
